@@ -308,6 +308,7 @@ def _model_cases(ctx, nl):
             try:
                 sd = SpotDiagram(o, fields=F, wavelengths=wl, num_rings=nr, distribution='hexapolar')
                 cen, geo, rms = sd.centroid(), sd.geometric_spot_radius(), sd.rms_spot_radius()
+                pidx = int(sd._reference_index()) if hasattr(sd, '_reference_index') else int(o.wavelengths.primary_index)
                 add(f'spot-centroid:{tag}', f'optlist (option_map pairs (centroid {pidx}%Z {dn})) {_fl([v for c in cen for v in c])}')
                 add(f'spot-geo:{tag}', f'optlist (option_map flat2 (geometric_spot_radius {pidx}%Z {dn})) {_fl([v for r in geo for v in r])}')
                 add(f'spot-rms:{tag}', f'optlist (option_map flat2 (rms_spot_radius {pidx}%Z {dn})) {_fl([v for r in rms for v in r])}')
@@ -318,16 +319,12 @@ def _model_cases(ctx, nl):
         try:
             nr, npts = rng.choice([1, 2]), rng.choice([5, 9])
             ee = EncircledEnergy(o, fields=F, wavelength='primary', num_rays=nr, distribution='hexapolar', num_points=npts)
-            from copy import deepcopy
-            data = ee._center_spots(deepcopy(ee.data))
-            axis_lim = np.max(ee.geometric_spot_radius())
+            curves, _ = C.ee_view_curves(ee)
             spots = [[C.spot_of(o, f, wp, nr, 'hexapolar')] for f in F]
             defs.append(f'Definition d_ee := {_data(spots)}.')
             defs.append('Definition ee_axis := match geometric_spot_radius 0%Z d_ee with Some g => max_list (flat2 g) | None => nan end.')
             for fi in range(len(F)):
-                ax = C.FakeAx()
-                ee._plot_field(ax, data[fi], ee.fields[fi], axis_lim, ee.num_points)
-                (r_step, e_step), _ = ax.lines[0]
+                r_step, e_step = curves[fi]
                 add('ee-curve', f'match center_spots 0%Z d_ee with Some c => match nth_error c {fi} with Some [s] => '
                                 f'let \'(rs, es) := ee_curve s ee_axis {fh(1.2)} {npts} in close_list {TOL} rs {_fl(r_step)} && close_list {TOL} es {_fl(e_step)} '
                                 f'| _ => false end | None => false end')
@@ -356,7 +353,8 @@ def _model_cases(ctx, nl):
                     for w in wl:
                         d = a.data[f'{f}'][f'{w}']
                         flat += list(d['x']) + list(d['y'])
-                add(f'rayfan:{tag}', f'optlist (option_map fan_xy (rayfan {_fl(wl)} {fh(wp)} {np0}%Z {dn})) {_fl(flat)}')
+                wref = wp if wp in [float(t) for t in wl] else float(wl[0])    # no KeyError although the primary is not listed: first listed
+                add(f'rayfan:{tag}', f'optlist (option_map fan_xy (rayfan {_fl(wl)} {fh(wref)} {np0}%Z {dn})) {_fl(flat)}')
             except KeyError as e:
                 raised('RayFan', e)
                 add(f'rayfan-raises:{tag}', f'isnone (rayfan {_fl(wl)} {fh(wp)} {np0}%Z {dn})')
@@ -577,7 +575,7 @@ def system_checks(ctx):
     import vlib
     imports = 'From OV Require Import Num.OpsC12 Gen.Analysis Model.M_C12.'
     # (a) hand model on independently traced rays vs the analyses
-    bodies, labels, hist = _model_cases(ctx, ctx.n(6, 60))
+    bodies, labels, hist = _model_cases(ctx, ctx.n(5, 60))
     res = {'name': 'analysis-models-vs-implementation', 'n': 0, 'nontrivial': hist['lenses'], 'histogram': hist,
            'samples': [], 'disagreements': []}
     try:
@@ -592,7 +590,7 @@ def system_checks(ctx):
         res['error'] = str(e)
     yield res
     # (b) Coq trace model composed with the spot model
-    bodies, labels = _trace_spot_cases(ctx, ctx.n(4, 40))
+    bodies, labels = _trace_spot_cases(ctx, ctx.n(3, 40))
     res = {'name': 'trace-model+spot-model-vs-SpotDiagram', 'n': 0, 'nontrivial': len(bodies), 'samples': [], 'disagreements': []}
     try:
         n, bad = _run_bodies('C12trace', 'From OV Require Import Num.OpsC12 Gen.Analysis Model.M_C12 Model.Trace.', HELPERS + TRACE_HELPERS, bodies, labels)
@@ -603,7 +601,7 @@ def system_checks(ctx):
         res['error'] = str(e)
     yield res
     # (c) the property stated directly on the implementation (independent recomputation incl. Coddington)
-    viol, hist = _oracle_sweep(ctx, ctx.n(14, 150), level=0 if ctx.quick() else 1)
+    viol, hist = _oracle_sweep(ctx, ctx.n(12, 150), level=0 if ctx.quick() else 1)
     known = vlib.load_known_findings(PROP)
     yield {'name': 'independent-recomputation-oracle', 'n': hist['analyses'], 'nontrivial': hist['clean_lenses'] + len(viol),
            'histogram': hist, 'samples': [{'coddington_samples_compared': hist['coddington_samples']}],
@@ -645,7 +643,8 @@ def matches_finding(w, f):
     if fid == 'grid-distortion-centre-sample':
         return a == 'GridDistortion' and kind == 'max-distortion' and w.get('field_type') == 'angle' and bool(w.get('centre_sample'))
     if fid == 'pupil-aberration-nan-first-surface-stop':
-        return (a == 'PupilAberration' and kind in ('x', 'y') and w.get('stop_index') == 1 and bool(w.get('object_infinite')))
+        return (a == 'PupilAberration' and kind in ('x', 'y') and w.get('stop_index') == 1 and bool(w.get('object_infinite'))
+                and bool(w.get('all_nan')))
     if fid == 'nan-ray-poisons-spot-statistics':
         return a in ('SpotDiagram', 'RmsSpotSizeVsField', 'EncircledEnergy') and kind == 'nan-poisoned' and (w.get('nonfinite_rays') or 0) > 0
     return False
